@@ -62,6 +62,16 @@ OPS = [
      "var t; try { kMap.call([1, 2], function () { throw new Error('e') }) } catch (e) { t = 'caught' + e.message } "
      "try { kBound(function () { return null.p }) } catch (e) { t += e.name } return n + t + kUp.call('ab') + kMap.call([1, 2], function (x) { return x * 2 }).join() })() : 'nokm'",
      "value", {}),
+    # declarations of a global that already exists keep its value; labels and other front-end state do not survive a failure
+    ("var a again (keeps its value), a = a + 1", None, "var a; var a = (typeof a === 'number' ? a : 0) + 1;", "value", "inc"),
+    ("indirect eval: var a again, a = a + 1", None, "(1, eval)('var a = (typeof a === \"number\" ? a : 0) + 1');", "value", "inc"),
+    ("syntax error inside a labelled statement", None, "LAB1: LAB2: { for (;;) { var a = ; } }", "syntax", {}),
+    ("caught syntax error of an eval inside a labelled statement", None,
+     "var se = 'none'; try { (1, eval)('LAB1: { LAB2: while (true) { b = ; } }') } catch (e) { se = e.name } se", "value", {}),
+    ("use the labels LAB1 and LAB2", None, "LAB1: { LAB2: for (var i9 = 0; i9 < 1; i9++) { c = 31; break LAB1 } }", "value", {"c": 31}),
+    ("change the results of Object.keys / values / entries of primitives", None,
+     "[Object.keys(5), Object.values(true), Object.entries('s'), Object.keys()].forEach(function (x) { try { x.push('leak'); x.zz = 1 } catch (e) { } }); 0",
+     "value", {}),
     ("set a=11", None, ("set", "a", 11), "value", {"a": 11}),
     ("a=12, loop forever inside try", "time", "a = 12; try { while (true) { } } catch (e) { a = -1 } finally { a = -2 }", "time", {"a": 12}),
     ("a=13, recurse forever inside try", "limit", "a = 13; try { (function r() { return 1 + r() })() } catch (e) { a = -1 }", "limit", {"a": 13}),
@@ -72,12 +82,15 @@ OPS = [
 ]
 TICK = len(OPS)          # environment transition: the clock jumps past every time limit
 
+PRIMITIVE_KEYS_PROBE = "0,0,0,undefined,0"
 PROBES = ["a", "b", "c"]
 EVAL_PROBES = [("f", "typeof f === 'function' ? f() : 'nofn'"), ("zz", "var o = {}; o.zz"), ("yy", "Math.yy"),
                ("pi", "parseInt('7')"), ("undef", "typeof neverdefined"), ("re", "typeof re === 'object' ? 1 : 0"),
                ("uncaught", "throw 'probe'"), ("caught", "var pr; try { null.x } catch (e) { pr = 'c' } pr"),
                ("json", "JSON.stringify({q: [1, {}]}) + (typeof cy === 'object' && cy.k.self === 1 ? JSON.stringify(cy.k) : '')"),
-               ("join", "[1, [2, 3]].join() + [[]].join().length")]
+               ("join", "[1, [2, 3]].join() + [[]].join().length"),
+               ("primitive-keys", "[Object.keys(7).length, Object.values(false).length, Object.entries(3).length, typeof Object.keys(9).zz, "
+                                  "(function () { try { return Object.keys().length } catch (e) { return e.name } })()].join()")]
 
 
 def initial(n):
@@ -120,6 +133,7 @@ def model_obs(cstate):
     o.append(repr("c"))
     o.append(repr('{"q":[1,{}]}' + ('{"v":1,"self":1}' if d["cy"] == 2 else "")))
     o.append(repr("1,2,30"))
+    o.append(repr(PRIMITIVE_KEYS_PROBE))
     return ",".join(o)
 
 
